@@ -4,23 +4,37 @@ Oracle for C11: re-computes the model's prediction and evaluates the spec on wha
 
 case     : `stack=tlcp|dtlcp cap=<int> ops=<op>,<op>,...`
              op = `P.<key>.<objid|nil>` | `G.<key>` ; the empty key is written `_`
-observed : `outs=<o>,<o>,... len=<list len>/<map len> wiped=<id>.<id>...|-`
-             o  = `U` | `G.<objid|nil>.<ok 0|1>.<wiped 0|1>`
+                | `N.<objid>.<buf>.<buf>…`   declares a session object and the backing array of each of
+                                             its reference fields (declaration order; `n` = nil): equal
+                                             names = shared storage. An object that is stored without a
+                                             declaration owns storage of its own (named 100000+objid).
+                | `H.<objid>.<buf>…`         the same for an object IN USE from here on (the state of an
+                                             open connection; phase conn only)
+observed : `outs=<o>,<o>,... len=<list len>/<map len> wiped=<id>.<id>...|- fields=<f>.<f>… harm=<e>;<e>…|-`
+             o  = `U` | `G.<objid|nil>.<ok 0|1>.<wiped 0|1>`       (one per P / G)
+             fields = the reference fields of SessionState as reflection sees them
+             e  = `<op index>:<objid>.<field>:<n|z|x>`  after that operation the field of that object
+                  differs from what it was when the object was introduced: set to nil / backing array
+                  all zero / anything else
 
 Phase `conn` (histories of real client handshakes through a recording cache):
 case     : `stack=.. cap=<int> hist=<history>` (syntax: harness/internal/resume; every
              connection is fault-free, so every handshake is expected to succeed)
-observed : `ops=<recorded trace, same op syntax> outs=.. len=.. wiped=.. hs=<ok|fail>,...`
+observed : `ops=<recorded trace, same op syntax> outs=.. len=.. wiped=.. hs=<ok|fail|panic>,... fields=.. harm=..`
+             (`N` with the storage identities the driver observed by pointer; `H.<1000+i>` the peer
+             certificates connection i reports through the public API)
 For these cases the recorded trace is run through the model, and the spec ALSO requires that
-every handshake succeeded and that the client stored one object per `Put` (`freshPuts`).
+every handshake succeeded and that the client stored independent objects (`freshPuts`).
 -/
 import Gotlcp.Oracle.Common
 import Gotlcp.Model.LRU
+import Gotlcp.Model.LRUHeap
 import Gotlcp.Spec.LRUMap
 import Gotlcp.Generated.Facts
 
 namespace Gotlcp.Oracle.C11
 open Gotlcp.Model
+open Gotlcp.Model.LRUHeap (Ref Evict Status status)
 
 def parseKey (s : String) : String := if s == "_" then "" else s
 def showKey (s : String) : String := if s == "" then "_" else s
@@ -28,14 +42,27 @@ def showKey (s : String) : String := if s == "" then "_" else s
 def parseObj (s : String) : Option (Option Nat) :=
   if s == "nil" then some none else s.toNat?.map some
 
-def parseOp (s : String) : Option LRU.Op :=
+def parseBuf (s : String) : Option (Option Nat) :=
+  if s == "n" then some none else s.toNat?.map some
+
+/-- one element of a trace: a cache operation or the declaration of an object -/
+inductive TOp where
+  | cache (op : LRU.Op)
+  | decl (inUse : Bool) (obj : Nat) (bufs : List (Option Nat))
+
+def parseTOp (s : String) : Option TOp :=
   match s.splitOn "." with
-  | ["P", k, v] => (parseObj v).map (LRU.Op.put (parseKey k))
-  | ["G", k] => some (.get (parseKey k))
+  | ["P", k, v] => (parseObj v).map fun v => .cache (.put (parseKey k) v)
+  | ["G", k] => some (.cache (.get (parseKey k)))
+  | "N" :: o :: bufs => do let o ← o.toNat?; let bs ← bufs.mapM parseBuf; pure (.decl false o bs)
+  | "H" :: o :: bufs => do let o ← o.toNat?; let bs ← bufs.mapM parseBuf; pure (.decl true o bs)
   | _ => none
 
-def parseOps (s : String) : Option (List LRU.Op) :=
-  if s == "-" then some [] else (s.splitOn ",").mapM parseOp
+def parseTOps (s : String) : Option (List TOp) :=
+  if s == "-" then some [] else (s.splitOn ",").mapM parseTOp
+
+def cacheOps (ops : List TOp) : List LRU.Op :=
+  ops.filterMap fun | .cache op => some op | _ => none
 
 def parseInt (s : String) : Option Int :=
   if s.startsWith "-" then (s.drop 1).toNat?.map (fun n => -(n : Int)) else s.toNat?.map Int.ofNat
@@ -46,41 +73,127 @@ def showObj : Option Nat → String
 
 def b01 (b : Bool) : String := if b then "1" else "0"
 
-/-- run the model, producing per-op outputs with the wiped flag as the real driver observes it:
-the wiped flag of a returned object is looked up in the heap *at the time of the call*. -/
-def runModel (strict : Bool) (s : LRU.State) : List LRU.Op → LRU.State × List String
-  | [] => (s, [])
-  | op :: ops =>
+def sortNat (l : List Nat) : List Nat := (l.toArray.qsort (· < ·)).toList
+
+def dedup (l : List Nat) : List Nat := l.foldl (fun acc x => if acc.contains x then acc else acc ++ [x]) []
+
+/-! ### the heap a case describes -/
+
+/-- private storage of an object the case does not declare -/
+def implicitBuf : Nat := 100000
+
+def refsOf (fields : List String) (obj : Nat) (bufs : List (Option Nat)) : List Ref :=
+  (fields.zip bufs).filterMap fun (f, b) => b.map fun b => ⟨obj, f, b⟩
+
+/-- the objects a trace introduces, with the index at which each becomes known: declared ones
+at their declaration, the others at the first store that mentions them -/
+def allocations (fields : List String) (ops : List TOp) : List (Nat × Nat × List Ref) :=
+  let rec go (i : Nat) (seen : List Nat) : List TOp → List (Nat × Nat × List Ref)
+    | [] => []
+    | .decl _ o bufs :: rest =>
+      if seen.contains o then go (i+1) seen rest
+      else (i, o, refsOf fields o bufs) :: go (i+1) (o :: seen) rest
+    | .cache (.put _ (some o)) :: rest =>
+      if seen.contains o then go (i+1) seen rest
+      else (i, o, refsOf fields o (fields.map fun _ => some (implicitBuf + o))) :: go (i+1) (o :: seen) rest
+    | _ :: rest => go (i+1) seen rest
+  go 0 [] ops
+
+def allRefs (al : List (Nat × Nat × List Ref)) : List Ref := al.flatMap (·.2.2)
+
+/-- the references of the objects known at operation `i`, ordered by object then field -/
+def knownAt (al : List (Nat × Nat × List Ref)) (i : Nat) : List Ref :=
+  let objs := (al.filter (·.1 ≤ i)).toArray.qsort (fun a b => a.2.1 < b.2.1)
+  objs.toList.flatMap (·.2.2)
+
+def holdersBefore (ops : List TOp) (i : Nat) : List Nat :=
+  (ops.take (i+1)).filterMap fun | .decl true o _ => some o | _ => none
+
+/-! ### the model's prediction -/
+
+def showStatus : Status → String
+  | .ok => "k"
+  | .cleared => "z"
+  | .dropped => "n"
+
+/-- what the hook `VerifSessionWiped` reports for object `o`: its master secret is nil or all
+zero — no master-secret reference at all, or one that is dropped / overwritten -/
+def wipedObj (E : Evict) (alloc : List Ref) (zeroed : List Nat) (o : Nat) : Bool :=
+  match alloc.find? (fun r => r.obj == o && r.field == "masterSecret") with
+  | none => true
+  | some r => status E alloc zeroed r != .ok
+
+/-- run the model, producing per-op outputs with the wiped flag as the real driver observes it
+(looked up in the heap *at the time of the call*) and the field changes of every operation:
+`Model.LRUHeap.status` before / after, on the references the newly evicted object can affect
+(`C11_change_frame`: no other reference changes). -/
+def runModel (strict : Bool) (E : Evict) (al : List (Nat × Nat × List Ref)) (alloc : List Ref) :
+    Nat → LRU.State → List TOp → LRU.State × List String × List String
+  | _, s, [] => (s, [], [])
+  | i, s, .decl .. :: ops => runModel strict E al alloc (i+1) s ops
+  | i, s, .cache op :: ops =>
     let (s1, o) := LRU.step strict s op
     let str := match o with
       | .unit => "U"
       | .got v ok =>
         let w := match v with
-          | some x => s1.zeroed.contains x
+          | some x => wipedObj E alloc s1.zeroed x
           | none => false
         s!"G.{showObj v}.{b01 ok}.{b01 w}"
-    let (s2, rest) := runModel strict s1 ops
-    (s2, str :: rest)
-
-def sortNat (l : List Nat) : List Nat := (l.toArray.qsort (· < ·)).toList
-
-def dedup (l : List Nat) : List Nat := l.foldl (fun acc x => if acc.contains x then acc else acc ++ [x]) []
+    let evs : List String :=
+      if s1.zeroed.length == s.zeroed.length then [] else
+      match s1.zeroed.head? with
+      | none => []
+      | some e =>
+        let eRefs := alloc.filter (·.obj == e)
+        let cands := (knownAt al i).filter fun r =>
+          r.obj == e || eRefs.any (fun r' => r'.field == r.field && r'.buf == r.buf)
+        cands.filterMap fun r =>
+          let a := status E alloc s1.zeroed r
+          if status E alloc s.zeroed r == a then none
+          else some s!"{i}:{r.obj}.{r.field}:{showStatus a}"
+    let (s2, rest, evRest) := runModel strict E al alloc (i+1) s1 ops
+    (s2, str :: rest, evs ++ evRest)
 
 structure Params where
   strict : Bool
   defaultCap : Nat
+  fields : List String
+  evict : Evict
 
 def params (stack : String) : Option Params :=
-  if stack == "tlcp" then some ⟨Facts.tlcp.lruPutNilAbsentReturns, Facts.tlcp.lruDefaultCap⟩
-  else if stack == "dtlcp" then some ⟨Facts.dtlcp.lruPutNilAbsentReturns, Facts.dtlcp.lruDefaultCap⟩
+  if stack == "tlcp" then some ⟨Facts.tlcp.lruPutNilAbsentReturns, Facts.tlcp.lruDefaultCap,
+    Facts.tlcp.lruSessionRefFields, ⟨Facts.tlcp.lruEvictInPlace, Facts.tlcp.lruEvictDropped⟩⟩
+  else if stack == "dtlcp" then some ⟨Facts.dtlcp.lruPutNilAbsentReturns, Facts.dtlcp.lruDefaultCap,
+    Facts.dtlcp.lruSessionRefFields, ⟨Facts.dtlcp.lruEvictInPlace, Facts.dtlcp.lruEvictDropped⟩⟩
   else none
 
-/-- `FreshPuts` of `Props.C11`, executable -/
-def freshPuts : List Nat → List LRU.Op → Bool
-  | _, [] => true
-  | used, .get _ :: ops => freshPuts used ops
-  | used, .put _ none :: ops => freshPuts used ops
-  | used, .put _ (some o) :: ops => !used.contains o && freshPuts (o :: used) ops
+/-! ### the specification on the observation -/
+
+/-- the documented name of the only field an eviction may touch -/
+def docSecret : String := "masterSecret"
+
+/-- the master-secret storage of every object that has one -/
+def secrets (alloc : List Ref) : List (Nat × Nat) :=
+  alloc.filterMap fun r => if r.field == docSecret then some (r.obj, r.buf) else none
+
+/-- two objects point at the same master-secret storage -/
+def sharesSecret (sec : List (Nat × Nat)) (a b : Nat) : Bool :=
+  match sec.lookup a, sec.lookup b with
+  | some x, some y => x == y
+  | _, _ => false
+
+/-- `FreshPuts` of `Props.C11`, executable, together with `DeepUnshared [masterSecret]` among the
+stored objects: every stored session is an object of its own with a master secret of its own
+(`usedBufs` = the master-secret storage of the sessions stored so far) -/
+def freshPuts (sec : List (Nat × Nat)) : List Nat → List Nat → List LRU.Op → Bool
+  | _, _, [] => true
+  | used, ub, .get _ :: ops => freshPuts sec used ub ops
+  | used, ub, .put _ none :: ops => freshPuts sec used ub ops
+  | used, ub, .put _ (some o) :: ops =>
+    match sec.lookup o with
+    | some b => !used.contains o && !ub.contains b && freshPuts sec (o :: used) (b :: ub) ops
+    | none => !used.contains o && freshPuts sec (o :: used) ub ops
 
 def specOp : LRU.Op → Spec.LRUMap.Op Nat
   | .put k v => .put k v
@@ -101,9 +214,8 @@ def parseObs (s : String) : Option ObsOut :=
   | ["G", v, ok, w] => (parseObj v).map fun o => ⟨true, o, ok == "1", w == "1"⟩
   | _ => none
 
-def checkSpec (cap : Int) (ops : List LRU.Op) (obs : List ObsOut) (qlen mlen : Nat) : Option (String × String) :=
+def checkSpec (cap : Int) (fresh : Bool) (hasSecret : Nat → Bool) (ops : List LRU.Op) (obs : List ObsOut) (qlen mlen : Nat) : Option (String × String) :=
   let sp := (Spec.LRUMap.run ({ cap := docCap cap, items := [] } : Spec.LRUMap.Map Nat) (ops.map specOp)).2
-  let fresh := freshPuts [] ops
   if sp.length != obs.length then some ("shape", "number of results differs") else
   if qlen > docCap cap || qlen != mlen then some ("size", s!"holds {qlen} list / {mlen} map entries, capacity {docCap cap}") else
   let rec go (i : Nat) : List (Option (Option Nat)) → List ObsOut → Option (String × String)
@@ -115,21 +227,85 @@ def checkSpec (cap : Int) (ops : List LRU.Op) (obs : List ObsOut) (qlen mlen : N
         -- the finding F17 has its own tag: a lookup answering (nil, true)
         let tag := if o.obj.isNone && o.ok then "nil-hit" else "lookup"
         some (tag, s!"op {i}: lookup returned ({showObj o.obj},{b01 o.ok}) but an LRU map of capacity {docCap cap} returns ({showObj r},{b01 r.isSome})")
-      else if fresh && o.wiped then some ("wiped-live", s!"op {i}: session {showObj o.obj} returned by a lookup has a wiped master secret")
+      else if fresh && o.wiped && (o.obj.map hasSecret).getD false then some ("wiped-live", s!"op {i}: session {showObj o.obj} returned by a lookup has a wiped master secret")
       else go (i+1) sp os
     | _, _ => some ("shape", "number of results differs")
   go 0 sp obs
 
+structure Harm where
+  op : Nat
+  obj : Nat
+  field : String
+  st : String
+
+def parseHarm (s : String) : Option (List Harm) :=
+  if s == "-" then some [] else
+  (s.splitOn ";").mapM fun e =>
+    match e.splitOn ":" with
+    | [i, of, st] =>
+      match of.splitOn "." with
+      | [o, f] => do pure ⟨← i.toNat?, ← o.toNat?, f, st⟩
+      | _ => none
+    | _ => none
+
+/-- the textbook map before and after every element of the trace, with the entries that
+element pushes out -/
+def specTimeline (cap : Nat) (ops : List TOp) : List (Spec.LRUMap.Map Nat × List Nat) :=
+  let rec go (m : Spec.LRUMap.Map Nat) : List TOp → List (Spec.LRUMap.Map Nat × List Nat)
+    | [] => []
+    | .decl .. :: rest => (m, []) :: go m rest
+    | .cache (.put k v) :: rest =>
+      let m' := Spec.LRUMap.put m k v
+      (m', (Spec.LRUMap.evictedByPut m k v).map (·.2)) :: go m' rest
+    | .cache (.get k) :: rest =>
+      let m' := (Spec.LRUMap.get m k).1
+      (m', []) :: go m' rest
+  go { cap := cap, items := [] } ops
+
+/-- **No operation changes a session that is still reachable under a key or in use.** The one
+documented effect of an eviction is that the master secret of the session held by the evicted
+entry is overwritten (seen through every object that shares that storage). Any other change of
+any field of an object that, after the operation, is reachable through the cache (by the
+textbook map) or in use by an open connection fails the property — except on the session held by
+the evicted entry itself (reachable only if the caller stored that very object twice); so does
+the documented effect when it reaches a reachable session although every stored session had a
+master secret of its own. -/
+def checkHarm (cap : Int) (fresh : Bool) (sec : List (Nat × Nat)) (ops : List TOp) (harm : List Harm) : Option (String × String) :=
+  let tl := specTimeline (docCap cap) ops
+  harm.findSome? fun h =>
+    match tl[h.op]? with
+    | none => some ("shape", s!"change reported at operation {h.op} which does not exist")
+    | some (after, evicted) =>
+      let documented := h.field == docSecret && evicted.any (fun e => e == h.obj || sharesSecret sec e h.obj)
+      let key := (after.items.find? (·.2 == h.obj)).map (·.1)
+      let inUse := (holdersBefore ops h.op).contains h.obj
+      if evicted.contains h.obj && !documented then
+        -- the session held by the evicted entry itself: scrubbing more of it than documented harms
+        -- nobody else; that the caller stored it under a second key as well is the caller's aliasing
+        none
+      else if documented then
+        match key with
+        | some k => if fresh && !evicted.contains h.obj then
+            some ("wiped-live", s!"op {h.op}: the master secret of session {h.obj}, still reachable under key {showKey k}, was overwritten by the eviction of another session")
+          else none
+        | none => none
+      else
+        match key with
+        | some k => some ("live-harmed", s!"op {h.op}: field {h.field} of session {h.obj}, still reachable under key {showKey k}, was changed ({h.st}); an eviction may only overwrite the master secret of the evicted session")
+        | none =>
+          if inUse then some ("live-harmed", s!"op {h.op}: field {h.field} of object {h.obj}, in use by an open connection, was changed ({h.st})")
+          else none
+
 /-- extra clauses for connection histories: every (honest) handshake succeeded and the client
 never stored one session object under two keys -/
-def checkConn (ops : List LRU.Op) (hs : String) : Option (String × String) :=
+def checkConn (fresh : Bool) (hs : String) : Option (String × String) :=
   let rs := hs.splitOn ","
   match rs.findIdx? (· != "ok") with
   | some i =>
     if hs == "-" then none else
     some ("honest-handshake-failed", s!"connection {i} of a fault-free history failed ({rs.getD i "?"})")
   | none =>
-    if !freshPuts [] ops then some ("aliased-put", "the client stored one session object under more than one key / more than once")
+    if !fresh then some ("aliased-put", "the client stored one session object under more than one key / more than once, or two sessions sharing master-secret storage")
     else none
 
 /-- concurrent phase (harness/cmd/c11/conc.go): every stored session is tagged with its key, so a
@@ -147,42 +323,66 @@ def judgeConc (o : String) : Verdict :=
     else none
   { model := s!"foreign=0 lenok=1 gets={gets} hits={hits}", spec := spec, trivial := hits == "0" }
 
+def orElse (a b : Option (String × String)) : Option (String × String) :=
+  match a with
+  | some x => some x
+  | none => b
+
 def judge (c o : String) : Option Verdict := do
   let ct := tokens c
   if (kv ct "conc").isSome then return judgeConc o
-  let ot0 := tokens o
+  let ot := tokens o
   let stack ← kv ct "stack"
   let p ← params stack
   let cap ← (kv ct "cap").bind parseInt
   let isConn := (kv ct "hist").isSome
-  let opsStr ← if isConn then kv ot0 "ops" else kv ct "ops"
-  let ops ← parseOps opsStr
-  let (s, outs) := runModel p.strict (LRU.init p.defaultCap cap) ops
-  let wiped := sortNat (dedup s.zeroed)
+  let opsStr ← if isConn then kv ot "ops" else kv ct "ops"
+  let tops ← parseTOps opsStr
+  let ops := cacheOps tops
+  -- the model: heap by the extracted field names, eviction by the extracted facts
+  let al := allocations p.fields tops
+  let alloc := allRefs al
+  let (s, outs, evs) := runModel p.strict p.evict al alloc 0 (LRU.init p.defaultCap cap) tops
+  let sessions := al.filterMap fun (i, o, _) =>
+    match tops[i]? with
+    | some (.decl true _ _) => none
+    | _ => some o
+  let wiped := sortNat (sessions.filter (wipedObj p.evict alloc s.zeroed))
   let wstr := if wiped.isEmpty then "-" else ".".intercalate (wiped.map toString)
   let ostr := if outs.isEmpty then "-" else ",".intercalate outs
-  let hsStr := (kv ot0 "hs").getD "-"
-  let model := if isConn then s!"ops={opsStr} outs={ostr} len={s.q.length}/{s.q.length} wiped={wstr} hs={hsStr}"
-    else s!"outs={ostr} len={s.q.length}/{s.q.length} wiped={wstr}"
-  -- spec on the observation
-  let ot := tokens o
-  let spec : Option (String × String) :=
+  let hstr := if evs.isEmpty then "-" else ";".intercalate evs
+  let fstr := if p.fields.isEmpty then "-" else ".".intercalate p.fields
+  let hsStr := (kv ot "hs").getD "-"
+  let tail := s!"len={s.q.length}/{s.q.length} wiped={wstr}"
+  let model := if isConn then s!"ops={opsStr} outs={ostr} {tail} hs={hsStr} fields={fstr} harm={hstr}"
+    else s!"outs={ostr} {tail} fields={fstr} harm={hstr}"
+  -- the spec on the observation: heap by the OBSERVED field names
+  let ofields := match kv ot "fields" with
+    | some f => if f == "-" then [] else f.splitOn "."
+    | none => []
+  let oalloc := allRefs (allocations ofields tops)
+  let sec := secrets oalloc
+  let fresh := freshPuts sec [] [] ops
+  let specV : Option (String × String) :=
     match kv ot "outs", kv ot "len" with
     | some os, some ln =>
       let obs := if os == "-" then some [] else (os.splitOn ",").mapM parseObs
       match obs, ln.splitOn "/" with
       | some obs, [a, b] =>
         match a.toNat?, b.toNat? with
-        | some qa, some mb => checkSpec cap ops obs qa mb
+        | some qa, some mb => checkSpec cap fresh (fun x => (sec.lookup x).isSome) ops obs qa mb
         | _, _ => some ("shape", "unparseable len")
       | _, _ => some ("shape", "unparseable observation")
     | _, _ => some ("shape", "missing outs/len")
-  let spec := if isConn then
-      (match checkConn ops hsStr with
-       | some f => some f
-       | none => spec)
-    else spec
+  let harmV : Option (String × String) :=
+    match (kv ot "harm").bind parseHarm with
+    | some harm => checkHarm cap fresh sec tops harm
+    | none => some ("shape", "missing or unparseable harm")
+  let spec := orElse harmV (if isConn then orElse (checkConn fresh hsStr) specV else specV)
   let hit := outs.any (fun t => t.startsWith "G." && !t.startsWith "G.nil")
-  pure { model := model, spec := spec, trivial := !hit }
+  -- evidence detail: the case has objects that share storage
+  let shared := al.any fun (_, o, rs) => rs.any fun r => alloc.any fun r' => r'.obj != o && r'.field == r.field && r'.buf == r.buf
+  let note := if shared then "shared-storage" else ""
+  pure { model := model, spec := spec, note := note, trivial := !hit }
 
 end Gotlcp.Oracle.C11
